@@ -60,7 +60,7 @@ pub fn rt() -> &'static tokio::runtime::Runtime {
 static UNIQ: AtomicU64 = AtomicU64::new(0);
 
 pub fn tmp_dir() -> PathBuf {
-    let p = PathBuf::from("/verif/target/tmp");
+    let p = PathBuf::from(format!("{}/target/tmp", vf_common::out_root()));
     std::fs::create_dir_all(&p).ok();
     p
 }
